@@ -99,8 +99,13 @@ ASSUMPTIONS["C12"] = ["ids are never -1 / '' / '-1' (documented no-parent sentin
 # ---- C14, C15, C16 (family export) -------------------------------------------------------------
 for _p in ("C14", "C15", "C16"):
     FAMILY[_p] = "fam_export"
-REQUIRED_THEOREMS["C14"] = ["C14_csv", "C14_geff", "C14_geff_loaded", "C14_geff_loaded_edge", "C14_internal"]
-REQUIRED_THEOREMS["C15"] = ["C15_closure", "C15_closure_files", "C15_parent_closed", "C15_edges", "C15_edges_csv", "C15_seg", "C15_seg_csv"]
+REQUIRED_THEOREMS["C14"] = ["C14_csv", "C14_geff", "C14_geff_loaded", "C14_geff_loaded_edge", "C14_internal",
+                            # R5A: the table of every state an admissible editing session reaches is well-formed
+                            "C14_export_wf_of_inv", "C14_export_faithful", "C14_posSrc_reach", "C14_after_session_csv",
+                            "C14_after_session_geff", "C14_after_session_internal", "C14_after_session_pos",
+                            "C14_export_needs_posSrc", "C14_counterexample_position_switched_off"]
+REQUIRED_THEOREMS["C15"] = ["C15_closure", "C15_closure_files", "C15_parent_closed", "C15_edges", "C15_edges_csv", "C15_seg", "C15_seg_csv",
+                            "C15_after_session", "C15_after_session_csv", "C15_after_session_seg"]
 REQUIRED_THEOREMS["C16"] = ["C16_readonly", "C16_readonly_eq", "C16_counterexample_unfixed", "C16_repair_same_output"]
 _EXPORT_TB = ["pandas / zarr / json / numpy / tifffile file I/O are carriers of the opaque value tokens (files written by the real exporters are read back with csv/zarr/json-level readers and compared with the model's encode)",
               "networkx ancestors / subgraph and the geff write / construct path are trusted library code"]
@@ -191,14 +196,19 @@ REQUIRED_THEOREMS["C07"] = ["C07_array_write", "C07_pixels", "C07_getPixels", "C
 REQUIRED_THEOREMS["C08"] = ["C08_meas_update", "C08_meas_step_updSeg", "C08_meas_step_addNode", "C08_meas_step_delNode",
                             "C08_meas_step_noarray", "C08_meas_step_updAttrs", "C08_bulk"]
 REQUIRED_THEOREMS["C09"] = ["C09_value", "C09_bulk", "C09_bulk_measOK", "C09_incr_addEdge", "C09_incr_updSeg", "C09_agree",
-                            "C09_counterexample_unfixed"]
+                            "C09_counterexample_unfixed",
+                            # R5F: the IoU code paths as written (frame-pair grouping, edge-list removal,
+                            # leftovers -> 0, masked incremental) are equal to the per-edge model on any DAG
+                            "C09_computeIous_spec", "C09_faithful_bulk_eq", "C09_faithful_bulk_true",
+                            "C09_faithful_incr_eq", "C09_variant_bytarget_differs",
+                            "C09_variant_nosrcmask_differs", "C09_variant_setdefault_differs"]
 REQUIRED_THEOREMS["C01"] = ["C01_prim_addEdge", "C01_prim_addEdge_law", "C01_prim_delEdge", "C01_group", "C01_group_rollback",
                             "C01_note_updAttrs_fresh_key"]
 REQUIRED_THEOREMS["C10"] = ["C10_unknown", "C10_protected", "C10_protected_any_activation", "C10_registry_enable",
                             "C10_registry_disable", "C10_registry_step", "C10_disabled_frozen_update",
                             "C10_disabled_frozen_compute", "C10_disabled_frozen_updSeg", "C10_disabled_frozen_iou",
                             "C10_disabled_frozen_updAttrs"]
-REQUIRED_THEOREMS["C11"] = ["C11_deleteEdge_unknown", "C11_addEdge_invalid", "C11_addEdge_merge", "C11_addEdge_triple",
+REQUIRED_THEOREMS["C11"] = ["C11_note_rollback_loses_unregistered_attr", "C11_deleteEdge_unknown", "C11_addEdge_invalid", "C11_addEdge_merge", "C11_addEdge_triple",
                             "C11_addNode_invalid", "C11_deleteNode_unknown", "C11_swap_unknown", "C11_swap_invalid",
                             "C11_updateSeg_no_seg", "C11_updateAttrs", "C11_updateAttrs_protected", "C11_updateAttrs_unknown",
                             "C11_addNode_conflict", "C11_step_no_history_no_refresh", "C11_addNode_refused"]
